@@ -31,7 +31,10 @@ RULE = ('histories over real CompiledChemicals (1-8 bundled chemicals incl. isom
         'multi-phase molar-flow indexers; key forms: ID/alias/CAS, tuple and list, group, nested, ellipsis, '
         'phase, (phase, key), (..., key), malformed keys (<=15%); "churn" cases make >600 distinct keys on one '
         'MaterialIndexer memo and >100 on the chemicals memo so both eviction paths run, with cross-package '
-        'copy_like/mix_from in between; dyadic data (exact comparison). A case is non-trivial when at least one '
+        'copy_like/mix_from in between; "grow" cases make a MaterialIndexer\'s phase set grow in place (mix_from / copy_like '
+        'from a source with a phase it lacks) with phase keys looked up before and after and sibling indexers of the old '
+        'phase tuple; groups with IDs out of chemical order and non-uniform compositions receive scalars; '
+        'dyadic data (exact comparison). A case is non-trivial when at least one '
         'lookup succeeded on non-zero data; distinct = distinct op sequences')
 ASSUMPTIONS = [
     'flow data are compared through to_array() (dense image); the sparse dictionary is the subject of C09',
@@ -43,7 +46,9 @@ ASSUMPTIONS = [
     'repeated labels in the phases given to MaterialIndexer.blank',
     'modelled indexers: ChemicalMolarFlowIndexer and MolarFlowIndexer (group_compositions = molar compositions); '
     'SplitIndexer, mass/volumetric indexers and wt=True group compositions are not modelled; index_overlap is '
-    'exercised through copy_like / mix_from([self, other]) between single-phase indexers only',
+    'exercised through copy_like / mix_from([self, other]) between single-phase indexers only; transfers that '
+    'involve a multi-phase indexer are generated within one chemicals object, and a single-phase receiver only '
+    'takes a single-phase source',
     'the order of index_overlap\'s CAS tuple (insertion order of the sparse dict) is modelled as ascending '
     'position: by cache_transparent it cannot influence any result',
     'the model is written to the FIXED behaviour of fixes_proposed/C10-1..C10-4 (trim_cache, index_overlap kind, '
@@ -225,6 +230,12 @@ class ChemSet:
             self._fresh = cc
         return self._fresh
 
+    def group_ids(self, name):
+        """member IDs of a group in the order the user gave them (last definition)"""
+        for d in reversed(self.defs):
+            if d[0] == 'group' and d[1] == name: return list(d[2])
+        return None
+
     def group_comp(self, name):
         for d in reversed(self.defs):
             if d[0] == 'group' and d[1] == name:
@@ -253,6 +264,10 @@ class Universe:
         except Exception:
             return None
         return p if isinstance(p, int) else list(p)
+
+    def members(self, cs, name):
+        """positions of the members of a group, in the user's definition order (aligned with group_comp)"""
+        return [self.pos_of(cs, i) for i in cs.group_ids(name)]
 
     def chem_form(self, cs, key):
         """(form, plan) of a chemical-level key judged on the fresh object, or None if not a valid chemical key.
@@ -414,11 +429,15 @@ class Universe:
             self.tags.add('group:redefined' if redefinition else 'group:ok')
             self.names_stay(cs, fail, 'group')
             p = cs.real.get_index(name)
+            mem = [cs.real.index(x) for x in ids]
+            if sorted(p) != sorted(mem):
+                fail('group:members', f'group {name!r} has positions {list(p)}, its IDs have positions {mem}')
             return line, 'ok ' + (','.join(str(x) for x in p) if p else '-')
 
         if op == 'cix':
             s = int(t[1])
-            self.ixs.append((ind.ChemicalMolarFlowIndexer.blank('l', self.sets[s].real), s)); self.version.append(0)
+            ph = t[2] if len(t) > 2 else 'l'
+            self.ixs.append((ind.ChemicalMolarFlowIndexer.blank(ph, self.sets[s].real), s)); self.version.append(0)
             return line, 'ok'
 
         if op == 'mix':
@@ -499,27 +518,47 @@ class Universe:
         if op in ('copylike', 'mixfrom'):
             l, r = int(t[1]), int(t[2])
             (il, sl), (ir, sr) = self.ixs[l], self.ixs[r]
-            before, src = dense(il)[0], dense(ir)[0]
+            multi = isinstance(il, ind.MaterialIndexer) or isinstance(ir, ind.MaterialIndexer)
+            before_rows, src_rows = dense(il), dense(ir)
+            before_ph, src_ph = self.labels(il), self.labels(ir)
             casL, casR = self.sets[sl].real.CASs, self.sets[sr].real.CASs
-            valid = all(casR[j] in casL for j, x in enumerate(src) if x)
+            valid = all(casR[j] in casL for row in src_rows for j, x in enumerate(row) if x)
             try:
                 if op == 'copylike': il.copy_like(ir)
                 else: il.mix_from([il, ir])
             except Exception as e:
                 self.tags.add(op + ':err:' + err_name(e))
-                if dense(il)[0] != before: self.version[l] += 1
+                if dense(il) != before_rows: self.version[l] += 1
                 if valid:
                     fail(f'{op}:raises-{err_name(e)}@{err_site(e)}', f'all chemicals present, raised {type(e).__name__}: {str(e)[:80]}')
                 return line, 'err=' + err_name(e)
             self.version[l] += 1
-            self.tags.add(op + (':same' if sl == sr else ':cross'))
-            after = dense(il)[0]
-            want = [Fraction(x) if op == 'mixfrom' else Fraction(0) for x in before]
-            for j, x in enumerate(src):
-                if x: want[casL.index(casR[j])] += Fraction(x)
-            if [Fraction(x) for x in after] != want:
-                fail(f'{op}:mismatch', f'result {after}, by CAS number it should be {[float(x) for x in want]}')
-            return line, 'ok ' + show_dense([after])
+            after_rows, after_ph = dense(il), self.labels(il)
+            grown = isinstance(il, ind.MaterialIndexer) and len(after_ph) > len(before_ph)
+            self.tags.add(op + (':same' if sl == sr else ':cross') + (':multi' if multi else '') + (':grown' if grown else ''))
+            if grown and list(after_ph).index(before_ph[0]) != 0: self.tags.add('grown:rows-renumbered')
+            # the material, label by label (a label the receiver lacks goes to its case variant)
+            n = len(casL)
+            want = {p: [Fraction(0)] * n for p in after_ph}
+            ok = all(p in after_ph for p in before_ph) or not isinstance(il, ind.MaterialIndexer)
+            if op == 'mixfrom' or l == r:
+                for p, row in zip(before_ph, before_rows):
+                    tgt = p if p in want else after_ph[0]
+                    want[tgt] = [a + Fraction(x) for a, x in zip(want[tgt], row)]
+            if not (op == 'copylike' and l == r):
+                for p, row in zip(src_ph, src_rows):
+                    if isinstance(il, ind.MaterialIndexer):
+                        tgt = p if p in want else (p.lower() if p.isupper() else p.upper())
+                    else:
+                        tgt = after_ph[0]
+                    if tgt not in want: ok = False; break
+                    for j, x in enumerate(row):
+                        if x: want[tgt][casL.index(casR[j])] += Fraction(x)
+            got = {p: [Fraction(x) for x in row] for p, row in zip(after_ph, after_rows)}
+            if not ok or got != want:
+                fail(f'{op}:mismatch', f'phases {after_ph} data {after_rows}; phase by phase and CAS by CAS it should be '
+                                       f'{ {p: [float(x) for x in v] for p, v in want.items()} }')
+            return line, f'ok {"".join(after_ph)} ' + show_dense(after_rows)
 
         raise ValueError('unknown op ' + line)
 
@@ -532,6 +571,10 @@ class Universe:
             if q != p:
                 fail(f'{op}:moved-name', f'name {n!r} resolved to {p} before this definition and to {q} after it')
                 break
+
+    @staticmethod
+    def labels(ix):
+        return tuple(ix.phases) if isinstance(ix, ind.MaterialIndexer) else (ix.phase,)
 
     def chems_line(self, cs):
         return 'chems ' + ' '.join(f'{enc(ID)}|{cas}|{",".join(enc(n) for n in names)}' for ID, cas, names in cs.specs)
@@ -585,13 +628,17 @@ class Universe:
         if len(set(flat)) != len(flat): return None          # repeated positions: "what was written" is ambiguous
         if plan[0] == 'grp':
             comp = cs.group_comp(plan[1])
-            if scalar: vals = [Fraction(data) * Fraction(c) for c in comp]
+            if scalar:
+                # member j (in the order of the user's definition) receives x * comp_j
+                where = self.members(cs, plan[1])
+                vals = [Fraction(data) * Fraction(c) for c in comp]
             elif prefix == 'allphase+': return None
             else:
                 if len(data) != len(plan[2]): return None
+                where = plan[2]
                 vals = [Fraction(x) for x in data]
             for r in rows:
-                for i, v in zip(plan[2], vals): exp[(r, i)] = v
+                for i, v in zip(where, vals): exp[(r, i)] = v
             return prefix + form, exp
         # sequence
         if scalar and form == 'nested' and prefix == 'allphase+': return None   # not broadcast by the code; see report
@@ -603,7 +650,7 @@ class Universe:
             else:
                 comp = cs.group_comp(e[1])
                 for r in rows:
-                    for i, c in zip(e[2], comp): exp[(r, i)] = x * Fraction(c)
+                    for i, c in zip(self.members(cs, e[1]), comp): exp[(r, i)] = x * Fraction(c)
         return prefix + form, exp
 
     @staticmethod
@@ -847,6 +894,51 @@ class Gen:
         else:
             self.do(f'set {n} * ' + show_data([dy(rng, 0.25) for _ in range(size)]))
 
+    def transfer(self):
+        """copy_like / mix_from between two indexers of the same chemicals object (the model's domain:
+        a single-phase receiver takes a single-phase source; a multi-phase receiver takes either)"""
+        rng = self.rng
+        ixs = self.U.ixs
+        l = rng.randrange(len(ixs))
+        il, sl = ixs[l]
+        cands = [j for j, (ir, sr) in enumerate(ixs) if sr == sl and
+                 (isinstance(il, ind.MaterialIndexer) or not isinstance(ir, ind.MaterialIndexer))]
+        if not cands: return
+        r = rng.choice(cands)
+        self.do(f'{rng.choice(["copylike", "mixfrom", "mixfrom"])} {l} {r}')
+
+    def phase_probe(self, n, writes=0.15):
+        """(phase, IDs) / phase lookups on a multi-phase indexer, through every label it has"""
+        rng = self.rng
+        ix, s = self.U.ixs[n]
+        for p in ix.phases:
+            if rng.random() < 0.5:
+                lab = p if rng.random() < 0.85 else (p.lower() if p.isupper() else p.upper())
+                ids = self.chem_key(s, 0.0, top=False)
+                if ids is Ellipsis and not GEN_PHASE_ELLIPSIS: ids = self.name(s, 0)
+                key = (lab, ids)
+                if rng.random() < writes: self.do(f'set {n} {show_key(key)} {self.data_for(n, key)}')
+                self.do(f'get {n} {show_key(key)}')
+            if rng.random() < 0.25: self.do(f'get {n} {p}')
+
+    def group_scalar(self, s, nix):
+        """a scalar written to a group (the composition decides which member gets what), then read back"""
+        rng = self.rng
+        names, groups = self.accepted(s)
+        cands = [n for n, (ix, sx) in enumerate(self.U.ixs) if sx == s and n < nix]
+        if not groups or not cands: return
+        grp = rng.choice(groups)
+        n = rng.choice(cands)
+        ix = self.U.ixs[n][0]
+        x = dy(rng, 0.05)
+        if isinstance(ix, ind.MaterialIndexer):
+            p = rng.choice(ix.phases)
+            self.do(f'set {n} ({p},{enc(grp)}) {show_data(x)}')
+            self.do(f'get {n} ({p},{enc(grp)})')
+        else:
+            self.do(f'set {n} {enc(grp)} {show_data(x)}')
+            self.do(f'get {n} {enc(grp)}')
+
     def rw(self, n, bad=0.04, pset=0.3):
         rng = self.rng
         key = self.key(n, bad)
@@ -876,10 +968,11 @@ def gen_small(g, rng):
     n = rng.choice([1, 2, 3, 3, 4, 5, 6, 7, 8])
     s = g.new_set(n)
     g.define_some(s, rng.randrange(0, 4), rng.randrange(0, 4))
-    g.do(f'cix {s}')
+    g.do(f'cix {s}' if rng.random() < 0.5 else f'cix {s} {rng.choice(VALID_PHASES)}')
     phs = ''.join(rng.sample(VALID_PHASES, rng.randrange(1, 6)))
     g.do(f'mix {s} {phs}')
     if rng.random() < 0.3: g.do(f'mix {s} {phs if rng.random() < 0.6 else "".join(rng.sample(VALID_PHASES, 2))}')
+    if rng.random() < 0.3: g.do(f'cix {s} {rng.choice(VALID_PHASES)}')
     if rng.random() < 0.03: g.do(f'mix {s} lx')
     nix = len(g.U.ixs)
     for i in range(nix):
@@ -887,8 +980,51 @@ def gen_small(g, rng):
     for _ in range(rng.randrange(20, 90)):
         r = rng.random()
         if r < 0.04: g.define_some(s, 1, 0)
-        elif r < 0.08: g.group(s)
+        elif r < 0.08:
+            g.group(s)
+            if rng.random() < 0.7: g.group_scalar(s, nix)
+        elif r < 0.12: g.group_scalar(s, nix)
+        elif r < 0.17: g.transfer()
         else: g.rw(rng.randrange(nix))
+
+
+@stoppable
+def gen_grow(g, rng):
+    """multi-phase indexers whose phase set grows IN PLACE (mix_from / copy_like with a source carrying a phase the
+    receiver lacks): phase keys looked up before and after, siblings with the old phase tuple (same memo) looked up
+    afterwards, new phases that sort before the old ones so that the rows are renumbered"""
+    n = rng.choice([1, 2, 3, 3, 4, 5, 8])
+    s = g.new_set(n)
+    g.define_some(s, rng.randrange(0, 2), rng.randrange(0, 3))
+    k = rng.randrange(1, 4)
+    old = ''.join(rng.sample('slSL' if rng.random() < 0.6 else VALID_PHASES, k))
+    rest = [p for p in VALID_PHASES if p not in old]
+    g.do(f'mix {s} {old}')                 # 0: the receiver
+    g.do(f'mix {s} {old}')                 # 1: sibling, same (phases, chemicals) memo
+    srcs = []
+    for _ in range(rng.randrange(1, 4)):
+        r = rng.random()
+        if r < 0.5 and rest: g.do(f'cix {s} {rng.choice(rest) if rng.random() < 0.8 else rng.choice(VALID_PHASES)}')
+        elif r < 0.55: g.do(f'cix {s} {rng.choice(old)}')
+        else: g.do(f'mix {s} {"".join(rng.sample(VALID_PHASES, rng.randrange(1, 4)))}')
+        srcs.append(len(g.U.ixs) - 1)
+    if rng.random() < 0.4: g.do(f'mix {s} {old}'); late_sibling = len(g.U.ixs) - 1
+    else: late_sibling = None
+    nix = len(g.U.ixs)
+    for i in range(nix): g.fill(i)
+    for round_ in range(rng.randrange(1, 4)):
+        for i in (0, 1): g.phase_probe(i)
+        src = rng.choice(srcs)
+        rcv = 0 if rng.random() < 0.8 else 1
+        g.do(f'{rng.choice(["mixfrom", "mixfrom", "copylike"])} {rcv} {src}')
+        for i in (0, 1): g.phase_probe(i)
+        if late_sibling is not None: g.phase_probe(late_sibling)
+        if rng.random() < 0.5:
+            g.do(f'mix {s} {old}')         # a fresh indexer with the OLD phases: must see its own rows
+            j = len(g.U.ixs) - 1
+            g.fill(j); g.phase_probe(j, writes=0.3)
+        for _ in range(rng.randrange(2, 10)): g.rw(rng.choice([0, 1]))
+        if rng.random() < 0.3: g.group_scalar(s, nix)
 
 
 @stoppable
@@ -985,7 +1121,8 @@ def generate(rng, tier, index, nworkers):
     for j in range(n - 1):
         r = rng.random()
         if r < (0.03 if tier == 'quick' else 0.05): yield gen_churn(rng, tier)
-        elif r < 0.25: yield gen_cross(rng)
+        elif r < 0.22: yield gen_cross(rng)
+        elif r < 0.42: yield gen_grow(rng)
         else: yield gen_small(rng)
 
 
@@ -1023,6 +1160,19 @@ def corpus():
               'cix 0', 'set 0 * v:1,2,4,8,16,32', 'get 0 Alc', 'get 0 (EtOH,Alc,qux)', 'set 0 (Alc,bar%20baz) s:8', 'get 0 *',
               'set 0 [Alc,X1] v:16,3', 'get 0 *', 'get 0 C2H6O', 'get 0 foo', 'mix 0 sL', 'set 1 (S,Alc) s:8', 'get 1 (*,Alc)',
               'get 1 (l,EtOH)', 'get 1 L', 'get 1 g', 'set 1 (*,(EtOH,Alc)) v:1,8', 'get 1 (*,Alc)'], {'kind': 'corpus-names'}),
+    ]
+    cases += [
+        # 7. phases grow in place (gas sorts before liquid: rows renumbered); keys memoised before, a sibling after
+        Case([W, 'mix 0 ls', 'mix 0 ls', 'cix 0 g', 'set 0 l v:10,2,0', 'set 0 s v:0,0,3', 'set 1 l v:7,0,0', 'set 1 s v:0,0,9',
+              'set 2 * v:1,5,0', 'get 0 (l,Water)', 'get 0 (s,Methanol)', 'get 0 (l,(Water,Ethanol))', 'mixfrom 0 2',
+              'get 0 (l,Water)', 'get 0 (s,Methanol)', 'get 0 (l,(Water,Ethanol))', 'get 0 (g,Ethanol)', 'get 0 l',
+              'set 0 (l,Water) s:42', 'get 0 (*,Water)', 'get 1 (l,Water)', 'get 1 (s,Methanol)', 'get 1 (g,Water)',
+              'mix 0 ls', 'set 3 l v:1,2,3', 'get 3 (l,Ethanol)', 'get 3 (s,Water)', 'copylike 1 2', 'get 1 (g,Ethanol)',
+              'get 1 (l,Water)', 'get 3 (l,Ethanol)'], {'kind': 'corpus-grow'}),
+        # 8. a scalar written to a group whose IDs are listed out of chemical order, non-uniform composition
+        Case([W, 'group 0 G Methanol,Water 1,3', 'cix 0', 'mix 0 lg', 'set 0 G s:8', 'get 0 *', 'get 0 G',
+              'set 1 (l,G) s:16', 'get 1 (l,*)' if GEN_PHASE_ELLIPSIS else 'get 1 l', 'set 1 (l,(Ethanol,G)) v:1,4', 'get 1 l',
+              'set 0 (G,Ethanol) s:4', 'get 0 *'], {'kind': 'corpus-group-order'}),
     ]
     drop = set()
     if not GEN_PHASE_ELLIPSIS: drop.add('corpus-phase-ellipsis')
